@@ -1085,6 +1085,24 @@ class Interp:
                 alts = [(('some', a + b), [Lin(top) - (a + b)], "%s checked_add(%s, %s) is Some" % (where, a, b)),
                         (('none',), [(a + b) - top - 1], "%s checked_add(%s, %s) overflows" % (where, a, b))]
             return self.fork(st, t, visits, alts)
+        if short in ("next_multiple_of", "checked_next_multiple_of") and len(args) == 2 and all(isinstance(a, Lin) for a in args) and args[1].is_const() and int(args[1].c) > 0:
+            # the smallest multiple of m that is >= a: an aligned symbol in [a, a + m - 1] (the same abstraction as `(a + m - 1) & !(m - 1)`)
+            a, m = args[0], int(args[1].c)
+            aty = self.operand_ty(body, t["args"][0])
+            top = UMAX.get(aty, 2 ** 64 - 1)
+            lim = (top // m) * m                    # the largest representable multiple
+            res = self.new_sym("aligned", ctx, aty)
+            self.aligned[next(iter(res.t))] = m
+            grow = [res - a, a + (m - 1) - res]
+            if short == "checked_next_multiple_of":
+                alts = [(('some', res), grow + [Lin(lim) - a], "%s checked_next_multiple_of(%s, %d) is Some" % (where, a, m)),
+                        (('none',), [a - lim - 1], "%s checked_next_multiple_of(%s, %d) overflows" % (where, a, m))]
+                return self.fork(st, t, visits, alts)
+            self.oblige(st, "add", "next_multiple_of(%s, %d) cannot overflow" % (a, m), ctx.le(a, Lin(lim)), t.get("sp"))
+            for g_ in grow:
+                ctx.add(g_)
+            self.store(st, t["dest"], res)
+            return None
         r_ = self.combinator(st, t, name, short, args, dty, visits)
         if r_ is not NotImplemented:
             return r_
